@@ -61,8 +61,9 @@ pub fn metric_name(m: DistanceMetric) -> &'static str {
         DistanceMetric::InnerProduct => "inner_product",
     }
 }
+/// A trailing '!' on a metric name ("cosine!") means hnsw.disable_normalization_check = true.
 pub fn metric_from(s: &str) -> DistanceMetric {
-    match s {
+    match s.trim_end_matches('!') {
         "cosine" => DistanceMetric::Cosine,
         "euclidean" => DistanceMetric::Euclidean,
         "inner_product" => DistanceMetric::InnerProduct,
